@@ -34,7 +34,30 @@ def _columns(draw, n, kind):
 
 
 @st.composite
+def _pole_cases(draw):
+    """Outlier-dominated replicates, estimate far out in one tail, tiny alpha: the BCa acceleration
+    term passes its pole between the two tails (agreement with the documented formula is claimed
+    everywhere, the ordering claim only away from the pole)."""
+    n = draw(st.integers(550, 1200))
+    n_out = draw(st.integers(1, 4))
+    side = draw(st.sampled_from([1.0, -1.0]))
+    seed = draw(st.integers(0, 10**6))
+    rs = np.random.RandomState(seed)
+    col = (rs.randint(-3, 4, size=n) / 4.0).tolist()
+    for i in rs.choice(n, size=n_out, replace=False).tolist():
+        col[i] = side * float(draw(st.sampled_from([50.0, 200.0, 1000.0])))
+    q = draw(st.sampled_from([0.99, 0.995, 0.999, 0.9]))
+    srt = sorted(col)
+    est = srt[min(n - 1, int(q * n))] if side > 0 else srt[max(0, int((1 - q) * n))]
+    return dict(n=n, Y=[], kind="pole", scale=1.0, cols=[col], nan=[[False] * n], est=[float(est)],
+                method="bca", A=[], alpha=[draw(st.sampled_from([1e-3, 1e-4, 1e-5, 1e-6, 0.01]))],
+                alpha2=0.5, perm_seed=0, extra_nans=1, aff=[2.0, 1.0], theta_dtype="float64")
+
+
+@st.composite
 def _cases(draw):
+    if draw(st.integers(0, 19)) == 0:
+        return draw(_pole_cases())
     n = draw(st.one_of(st.integers(1, 6), st.integers(7, 40)))
     Y = draw(st.sampled_from(YSHAPES))
     ny = gen.shape_size(Y)
